@@ -5,3 +5,5 @@ import LyModel.Props.C07
 #print axioms LyModel.Props.C07.is_default_iff_rfc6243_partial
 #print axioms LyModel.Props.C07.wd_modes_term
 #print axioms LyModel.Props.C07.wd_modes_inner
+#print axioms LyModel.Props.C07.implicit_exact
+#print axioms LyModel.Props.C07.autodel_exact
